@@ -84,7 +84,7 @@ def oracle(case: dict, obs: dict):
                 cancelled.add(k)
                 del pending[k]
         elif ent[0] == "exec":
-            _, k, clk = ent
+            k, clk = ent[1], ent[2]
             if not isinstance(clk, int):
                 return ("clock-not-exact", f"clock {clk}"), facts
             if k in executed:
@@ -149,7 +149,7 @@ def shrink(case, pred):
 
 
 def main(tier: str, pid=PID, gen=gen_case, oracle_fn=oracle, n_quick=1200, n_thorough=20000,
-         rule=None, extra_tb=None, targets=None, prepare=None, extra_cases=None) -> int:
+         rule=None, extra_tb=None, targets=None, prepare=None, extra_cases=None, nontrivial=None) -> int:
     targets = targets or ["Sim/Case.vo", f"Props/{pid}.vo"]
     run = C.Run(pid, tier)
     proofs_ok = run.check_proofs(targets, extra_tb=(extra_tb or []) + [
@@ -188,8 +188,9 @@ def main(tier: str, pid=PID, gen=gen_case, oracle_fn=oracle, n_quick=1200, n_tho
         for k, v in facts.items():
             if v is True:
                 hist[k] = hist.get(k, 0) + 1
-        if facts.get("executed", 0) >= 3 and any(v is True for v in facts.values()):
-            nontriv.add(json.dumps([c["prog"], c["cmds"], c["clock"]]))
+        is_nt = nontrivial(facts) if nontrivial else (facts.get("executed", 0) >= 3 and any(v is True for v in facts.values()))
+        if is_nt:
+            nontriv.add(json.dumps([c["prog"], c["cmds"], c["clock"], c["strategy"]]))
         if bad and first_bad is None:
             first_bad = (i, bad)
     run.cov["evaluations"] = len(cases)
@@ -248,6 +249,31 @@ def main(tier: str, pid=PID, gen=gen_case, oracle_fn=oracle, n_quick=1200, n_tho
         run.violation("proof-broken", f"a {pid} proof obligation no longer checks: " + getattr(run, "proof_log", "")[-800:],
                       {"theorems": run.cov.get("theorems")}, found_input=False)
     return run.finish()
+
+
+def replay_generic(path: str, pid: str, oracle_fn, prepare=None) -> int:
+    """./check Cxx --replay <file>: re-run the recorded failing input on the implementation and
+    judge it with the model-independent oracle."""
+    body = json.loads(Path(path).read_text())
+    case = body.get("case")
+    if not case:
+        print(f"nothing replayable in {path} (no concrete input was found for this violation: {body.get('what', '')[:200]})")
+        return 1 if body.get("property") == pid else 2
+    obs = S.run_impl([case], nproc=1)[0]
+    if prepare:
+        bad, _ = oracle_fn(case, obs, prepare([case], [obs]), 0)
+    else:
+        bad, _ = oracle_fn(case, obs)
+    if bad:
+        print(f"VIOLATION property={pid} replay={path}")
+        print(f"  {bad[0]}: {bad[1]}")
+        return 1
+    print(f"replay passes on this tree: property={pid} input={json.dumps(case)[:300]}")
+    return 0
+
+
+def replay(path: str) -> int:
+    return replay_generic(path, PID, oracle)
 
 
 if __name__ == "__main__":
